@@ -1,9 +1,13 @@
 // C02 -- progress on a clean path (exactly once, in order, bounded latency) and recovery after faults.
 #include "tunnel_common.h"
+#include "advnet_case.h"
 using namespace hz;
 
 static CaseResult run_case(Tape &t)
 {
+	// one case in twelve: the adversarial-network histories of C01's third shape (sequence-number wrap downstream, merge variant),
+	// followed by a clean path on which delivery has to resume
+	if (t.chance(1, 12)) { CaseResult a = advnet::downwrap_case(t, true); a.cls("mode:adversarial-history+clean-suffix"); return a; }
 	CaseResult r;
 	tun::Run R;
 	tun::Mode m = t.chance(1, 2) ? tun::RECOVER : tun::CLEAN;
